@@ -195,7 +195,7 @@ def sendConnless (env : Env) (c : Conn) (data : Bytes) : Except Fail (Conn × Se
   match c.state with
   | .online _ _ =>
     let c1 := { c with send := Timeout.after env.now sendUs }
-    if data.length > maxPayload then .ok (c1, .tooLongData, {})
+    if data.length > P6.connlessMax then .ok (c1, .tooLongData, {})
     else
       match emit [.connless data] with
       | .error e => .error e
@@ -292,5 +292,86 @@ def feed (env : Env) (c : Conn) (read : Option Bool → Option Packet) : Res :=
           | .error e => .error e
           | .ok o1 => feedBody env { c with state := .online t o1 } token p
         | _ => feedBody env c token p
+
+/-! ## Operation sequences (the quantifier of C01–C04) -/
+
+/-- one call into the connection -/
+inductive Op where
+  | connect
+  | disconnect (reason : Bytes)
+  | flush
+  | send (data : Bytes) (vital : Bool)
+  | sendConnless (data : Bytes)
+  | tick
+  | feed (read : Option Bool → Option Packet)
+
+/-- executes one call (the `Result` of `send` is dropped: both `Ok` and `TooLongData` return) -/
+def step (env : Env) (c : Conn) : Op → Res
+  | .connect => connect env c
+  | .disconnect r => disconnect env c r
+  | .flush => flush env c
+  | .send d v =>
+    match send env c d v with
+    | .error e => .error e
+    | .ok (c1, _, out) => .ok (c1, out)
+  | .sendConnless d =>
+    match sendConnless env c d with
+    | .error e => .error e
+    | .ok (c1, _, out) => .ok (c1, out)
+  | .tick => tick env c
+  | .feed rd => feed env c rd
+
+/-- runs a sequence of calls, each with its own clock value / random draws; collects the outputs -/
+def run : Conn → List (Env × Op) → Except Fail (Conn × List Out)
+  | c, [] => .ok (c, [])
+  | c, (env, op) :: rest =>
+    match step env c op with
+    | .error e => .error e
+    | .ok (c1, out) =>
+      match run c1 rest with
+      | .error e => .error e
+      | .ok (c2, outs) => .ok (c2, out :: outs)
+
+/-- what `Packet::read` guarantees about its result: 10-bit ack and sequence numbers -/
+def Packet.wf : Packet → Bool
+  | .connless _ => true
+  | .control ack _ _ => decide (ack < seqMod)
+  | .chunks ack _ _ _ cs => decide (ack < seqMod) && chunksSeqOk cs
+
+def State.isOnline : State → Bool
+  | .online _ _ => true
+  | _ => false
+
+/-- the API's preconditions: `connect` on a fresh connection, nothing on a disconnected one,
+`send`/`flush` online, a NUL-free close reason of at most `CTRLMSG_CLOSE_REASON_LENGTH` bytes, fed
+packets as the reader produces them, a random source that yields a usable token -/
+def permitted (env : Env) (c : Conn) : Op → Bool
+  | .connect => c.state == .unconnected
+  | .disconnect r => c.state != .disconnected && r.all (· != 0) && decide (r.length ≤ P6.CTRLMSG_CLOSE_REASON_LENGTH)
+  | .flush => c.state.isOnline
+  | .send _ _ => c.state.isOnline
+  | .sendConnless _ => c.state.isOnline
+  | .tick => true
+  | .feed rd =>
+    [none, some false, some true].all (fun h => (rd h).all Packet.wf) && (tokenRandom env.draws).isSome
+
+/-- every call of the schedule is permitted in the state it is made in (a call that fails ends the
+run; whether that can happen is what the C04 theorem decides, not this predicate) -/
+def runPermitted : Conn → List (Env × Op) → Bool
+  | _, [] => true
+  | c, (env, op) :: rest =>
+    permitted env c op &&
+      match step env c op with
+      | .error _ => true
+      | .ok (c1, _) => runPermitted c1 rest
+
+/-- what C04 demands of a datagram handed to the send callback -/
+def Packet.valid : Packet → Bool
+  | .connless d => decide (d.length ≤ P6.connlessMax)
+  | .control ack tok c => decide ((Packet.control ack tok c).wireSize ≤ maxPacketSize)
+  | .chunks ack tok rr n cs =>
+    decide ((Packet.chunks ack tok rr n cs).wireSize ≤ maxPacketSize) && decide (n = cs.length) &&
+      decide (cs.length ≤ maxNumChunks) && cs.all (fun c => cfg.accepts c.data.length) &&
+      (decide (n ≠ 0) || rr)
 
 end Tw.Conn6
